@@ -116,6 +116,147 @@ def check_saved_env(rep, cross):
         rep.absorb(ex)
 
 
+CS_FIRST = 'function h(){ return null.x } function g(){ return h() } function f(){ return g() } f()'
+CS_OBSERVER = 'function r(n){ return n ? r(n - 1) + 1 : 0 } r(3)'
+
+
+FRESH_SEQS = [
+    # (name, programs) for the seq_graph replay route: the observer (last program) must behave as on a fresh interpreter
+    ('exports of a failed main module', [{'src': "export const dead = 1; export function deadFn(){}; throw new Error('boom');", 'path': '/p/a/main.ts'},
+                                         {'src': "import * as ns from './m'; Object.keys(ns).sort().join(',')", 'path': '/p/a/obs.ts', 'modules': {'/p/a/m': 'export const live = 1;'}}]),
+    ('exports of a failed dependency', [{'src': "import { x } from './dep'; x", 'path': '/p/a/main.ts', 'modules': {'/p/a/dep': 'export const depSecret = 5; export const x = null.y;'}},
+                                        {'src': "import * as ns from './m'; Object.keys(ns).sort().join(',')", 'path': '/p/a/obs.ts', 'modules': {'/p/a/m': 'export const live = 1;'}}]),
+    ('run suspended on an order and never resumed', [{'src': 'import { order } from "tsrun:host";\nfunction helper(p){ return order({t:1}); } helper(1);', 'path': '/p/a/s.ts'},
+                                                     {'src': "[typeof secret, typeof inner, typeof p].join(',')"}]),
+    ('run the host stopped stepping', [{'src': 'function helper(p){ let inner = 2; for (let i = 0; i < 1000; i++) {} } helper(1);', 'max_steps': 60},
+                                       {'src': "[typeof inner, typeof p].join(',')"}]),
+    ('compile error after the module scope was installed', [{'src': "import { v } from './util'; class K { #x = 1; m(){ delete this.#x; } }", 'path': '/p/a/main.ts',
+                                                             'modules': {'/p/a/util': "export const v = 'leak';"}},
+                                                            {'src': 'typeof v'}]),
+    ('module path of an earlier entry point', [{'src': 'export const secret = 1;', 'path': '/p/a/main.ts'},
+                                               {'src': "import { v } from './util'; v", 'modules': {'util': 'export const v = 7;', '/util': 'export const v = 7;'}}]),
+    ('uncaught error three calls deep', [{'src': CS_FIRST}, {'src': CS_OBSERVER}]),
+]
+
+
+def check_sequences_fresh(rep):
+    outs = driver.replay([{'cmd': 'seq_graph', 'programs': progs} for _, progs in FRESH_SEQS])
+    bad = []
+    for (name, progs), o in zip(FRESH_SEQS, outs):
+        rep.validated += 1
+        last = o['outs'][-1]
+        if last['shared'] != last['fresh']:
+            bad.append((name, last['shared'], last['fresh']))
+    return bad
+
+
+def check_prepare_clean(rep, cross):
+    """Interpreter::prepare and Interpreter::eval from ANY interpreter state - an earlier run that failed, was abandoned, is suspended -
+    leave no trace of that run: call_stack, env_guards, exports, pending/cancelled orders, order_responses, the waiting contexts,
+    suspended_for_order, pending_program are empty when the function hands the new run over; main_module_path is the path given;
+    and the environment remembered for the end of the new run is the one the dead run was started from (or the current one)."""
+    seq_bad = check_sequences_fresh(rep)
+    for nme, got, fresh in seq_bad:
+        if not rep.seen('C11/sequence/%s' % nme):
+            p = rep.write_replay('seq-%s' % re.sub(r'[^a-z]+', '-', nme)[:24], {'cmd': 'seq_graph', 'sequence': nme, 'programs': dict(FRESH_SEQS)[nme], 'observer_after': got, 'observer_fresh': fresh})
+            rep.violation('C11/sequence/%s' % nme, 'after "%s" the next program gives %s, a fresh interpreter %s' % (nme, json.dumps(got)[:160], json.dumps(fresh)[:160]), p)
+    for meth in ('prepare', 'eval'):
+        ex = ledger.setup_executor(4)
+        ex.auto_havoc = True
+        F = ledger.InterpFields(ex)
+        vecs = ['call_stack', 'env_guards', 'pending_orders', 'cancelled_orders']
+        maps = ['exports', 'order_responses']
+        opts = ['suspended_for_order', 'pending_program', 'active_vm']
+        tracked = vecs + maps + opts + ['env', 'active_saved_env', 'active_module_env', 'active_module_path', 'main_module_path', 'current_module_path', 'wait_graph']
+        for n_ in tracked:
+            if n_ not in F.idx:
+                raise driver.Inconclusive('Interpreter.%s not found (renamed?)' % n_)
+        ex.auto_frames = {'Interpreter': {F[n_] for n_ in tracked}}
+        ex.execute_real = [re.compile(r'^Interpreter::(discard_previous_run|abandon_active_execution|finalize_active_execution)$|^WaitGraph::new$|^<WaitGraph as Default>::default$')]
+        ex.havoc(r'^Compiler::compile_program(_with_source)?$')
+        ex.havoc(r'^Interpreter::run_vm_to_completion$', framed={'Interpreter': {F[n_] for n_ in tracked}})
+        fn = common.fn_name(ex, 'Interpreter', meth)
+        f = ex.mir.get(fn)
+        st = State()
+        env0 = Opaque('Gc<JsObject>', z3.Int('$env_now'))
+        saved0 = Opaque('Gc<JsObject>', z3.Int('$env_dead_run_started_from'))
+        has_saved = z3.BitVec('dead_has_saved_env', 64)
+        st.assume(z3.ULT(has_saved, 2))
+        fields = {F['env']: env0, F['active_saved_env']: EnumV('Option<Gc<JsObject>>', has_saved, {1: {0: saved0}})}
+        lens = {}
+        for v_ in vecs + maps:
+            n = z3.BitVec('dead_%s_len' % v_, 64)
+            st.assume(z3.ULE(n, 1 << 40))
+            lens[v_] = n
+            fields[F[v_]] = AbsVec(n, 'dead_' + v_, None)
+        for o_ in opts:
+            d = z3.BitVec('dead_%s_some' % o_, 64)
+            st.assume(z3.ULT(d, 2))
+            fields[F[o_]] = EnumV('Option<%s>' % o_, d, {}, lazy=True)
+        wgn = z3.BitVec('dead_contexts_len', 64)
+        st.assume(z3.ULE(wgn, 1 << 40))
+        fields[F['wait_graph']] = Agg('struct', 'WaitGraph', {F.wg['contexts']: AbsVec(wgn, 'dead_contexts', None)}, lazy=True)
+        a = st.alloc(Agg('struct', 'Interpreter', fields, lazy=True))
+        pd = z3.BitVec('path_given', 64)
+        st.assume(z3.ULT(pd, 2))
+        path_arg = EnumV('Option<ModulePath>', pd, {1: {0: Agg('struct', 'ModulePath', {0: Opaque('PATHSTR', z3.Int('$path_given'))})}})
+        args = [Ref(a)]
+        for i, (n_, t) in enumerate(f.args):
+            if i == 0:
+                continue
+            args.append(path_arg if 'ModulePath' in t else ex.fresh(st, t, '$a%d' % i))
+        ex.call_function(st, fn, args)
+        ends = ex.run(st, max_paths=20000)
+        n_ok = 0
+        bad = None
+        for e in ends:
+            if e.status in ('bound', 'panic'):
+                continue
+            if e.status != 'return':
+                rep.inconc('%s: %s %s' % (meth, e.status, e.detail[:160]))
+                continue
+            n_ok += 1
+            iv = e.st.store[a]
+            goals = []
+            for v_ in vecs + maps:
+                cur = ex.load(e.st, a, (('f', F[v_], F.types[v_]),))
+                goals.append((v_ + ' is empty', ex.vec_len(cur).e == 0))
+            wg = ex.load(e.st, a, (('f', F['wait_graph'], F.types['wait_graph']),))
+            ctxs = wg.fields.get(F.wg['contexts']) if isinstance(wg, Agg) else None
+            goals.append(('no waiting context', ex.vec_len(ctxs).e == 0 if ctxs is not None else z3.BoolVal(False)))
+            sus = ex.load(e.st, a, (('f', F['suspended_for_order'], F.types['suspended_for_order']),))
+            goals.append(('suspended_for_order is None', sus.discr_expr() == 0))
+            is_err = isinstance(e.value, EnumV) and e.value.discr == 1
+            sv = iv.fields.get(F['active_saved_env'])
+            envv = iv.fields.get(F['env'])
+            base = z3.If(has_saved == 1, saved0.id, env0.id)
+            if is_err and isinstance(envv, Opaque):
+                goals.append(('after a failed start the environment is the one the dead run was started from', envv.id == base))
+            if isinstance(sv, EnumV) and isinstance(sv.discr, int) and sv.discr == 1 and isinstance(sv.payload[1][0], Opaque):
+                goals.append(('the environment remembered for the end of the run is the one the dead run was started from', sv.payload[1][0].id == base))
+            mp = iv.fields.get(F['main_module_path'])
+            if isinstance(mp, EnumV):
+                g_mp = mp.discr_expr() == pd
+                goals.append(('main_module_path is the path given', g_mp))
+            for label, g in goals:
+                r, m = ex.check_sat_pc(e.st.pc, [z3.Not(g)])
+                if r == 'sat' and bad is None:
+                    bad = (label, is_err)
+                elif r == 'unsat' and len(cross) < 4000:
+                    cross.append(('%s: %s' % (meth, label), list(e.st.pc) + [z3.Not(g)], 'unsat'))
+        what = 'Interpreter::%s starts every run from a clean slate, whatever an earlier run left behind' % meth
+        rep.obligation(what, 'sat' if bad else 'unsat', '%d return paths; ledgers of symbolic length, Options symbolic' % n_ok, 0.0, detail=bad[0] if bad else None)
+        if bad and not rep.seen('C11/%s/leftovers-of-a-dead-run' % meth):
+            p = rep.write_replay('clean-%s' % meth, {'function': meth, 'violated': bad[0], 'returns_err': bad[1], 'sequences_that_differ': [(n_, g_, f_) for n_, g_, f_ in seq_bad]})
+            rep.violation('C11/%s/leftovers-of-a-dead-run' % meth, '%s has a return path on which "%s" does not hold for an arbitrary earlier state%s' % (
+                meth, bad[0], '; sequence "%s": next program gives %s, fresh interpreter %s' % (seq_bad[0][0], json.dumps(seq_bad[0][1])[:120], json.dumps(seq_bad[0][2])[:120]) if seq_bad else ' (symbolic counterexample)'), p)
+        if n_ok == 0:
+            rep.inconc('%s: no path reaches a return (vacuity)' % meth)
+        rep.vacuity.append('%s clean slate: %d return paths' % (meth, n_ok))
+        rep.sample({'kernel': '%s clean slate' % meth, 'return_paths': n_ok})
+        rep.absorb(ex)
+
+
 def check_call_stack_ledger(rep, cross):
     """Interpreter::call_stack (what call_depth() reports and the host limits) is popped once per VM frame that is left: by
     restore_from_trampoline_frame and, per unwound frame, by handle_error_with_trampoline_unwind; pushed once per frame pushed"""
@@ -196,8 +337,6 @@ def check_call_stack_ledger(rep, cross):
         rep.absorb(ex)
 
 
-CS_FIRST = 'function h(){ return null.x } function g(){ return h() } function f(){ return g() } f()'
-CS_OBSERVER = 'function r(n){ return n ? r(n - 1) + 1 : 0 } r(3)'
 
 
 def check_env_restoring_functions(rep, cross, specs=None, pid='C11'):
@@ -405,6 +544,7 @@ def run(rep):
     check_env_restoring_functions(rep, cross)
     check_saved_env(rep, cross)
     check_call_stack_ledger(rep, cross)
+    check_prepare_clean(rep, cross)
     rep.cross = driver.cross_check(cross, 300, 'ALL', rep.tier, rep.seed)
     rep.extra['cross_checked_obligations'] = len(cross)
 
